@@ -2,7 +2,7 @@
 ID = "C22"
 FAMILY = "swarm"
 RULE = ("the real SwarmCoordinator::compute_plan over a real KademliaTable under the virtual clock: manifests with 0..255 "
-        "shards (labels arbitrary bytes, duplicates included), thresholds 0..255, 0..40 registered contacts (some expired at "
+        "shards (labels arbitrary bytes, duplicates included), thresholds 0..255, a declared total_shares byte that equals / is smaller / larger than the number of carried shards or 0, 0..40 registered contacts (some expired at "
         "plan time, the node's own id offered too, mixed loads / choking / reputation so that the ranking varies), "
         "swarm_min_providers / swarm_target_replicas / swarm_candidate_sample each 0, 1, 2, 3, 8, 40, 65535. The model gets "
         "the number of candidates and the shard labels and must reproduce the number of assignments and every slot's shard "
@@ -53,7 +53,8 @@ def generate(rng, tier):
         advance = rng.choice([0, 0, 1, 5, 60])
         live = [c for c in contacts if c[1] > advance and c[0] != selfid]
         ncand = min(max(sample, 1), len(live))
-        ints = [ncand] + lp(labels) + [thr, mn, tg, sample, seed] + selfid + chunk + [len(contacts)]
+        total_shares = rng.choice([nshards % 256, nshards % 256, 0, 1, 2, 5, 255, max(0, nshards - 1) % 256, (nshards + 3) % 256])
+        ints = [ncand] + lp(labels) + [thr, mn, tg, sample, seed, total_shares] + selfid + chunk + [len(contacts)]
         for c in contacts:
             ints += c[0] + [c[1], c[2], c[3], c[4], c[5]]
         ints += [advance]
